@@ -1,10 +1,10 @@
 package main
 
 import (
-	"golang.org/x/tools/go/ssa"
 	"bytes"
 	"context"
 	"fmt"
+	"golang.org/x/tools/go/ssa"
 	"os"
 	"os/exec"
 	"path/filepath"
@@ -189,21 +189,63 @@ func (e *Engine) discharge(ob *Obligation, idx int) {
 			return false
 		}
 		cases := fc.expandCases(ob.Cases)
+		// the cases are independent queries: run them side by side (the query texts are produced first, the
+		// generator is not re-entrant)
+		files := make([]string, len(cases))
+		axFiles := make([]string, len(cases))
+		quant := fc.hasQuantOrSpec()
 		for ci, c := range cases {
-			fq := base + fmt.Sprintf(".case%d.smt2", ci)
-			os.WriteFile(fq, []byte(fc.queryWith(ob, false, false, []string{c})), 0o644)
-			r, _, _ := runSolver(solvers[0], fq, e.timeout)
-			if r != "unsat" {
-				r, _, _ = runSolver(solvers[1], fq, e.timeout)
+			files[ci] = base + fmt.Sprintf(".case%d.smt2", ci)
+			os.WriteFile(files[ci], []byte(fc.queryWith(ob, false, false, []string{c})), 0o644)
+			if quant {
+				axFiles[ci] = base + fmt.Sprintf(".case%d.ax.smt2", ci)
+				os.WriteFile(axFiles[ci], []byte(fc.queryWith(ob, true, false, []string{c})), 0o644)
 			}
-			if r != "unsat" && fc.hasQuantOrSpec() {
-				os.WriteFile(fq, []byte(fc.queryWith(ob, true, false, []string{c})), 0o644)
-				r, _, _ = runSolver(solvers[0], fq, e.timeout)
-			}
-			if r != "unsat" {
+		}
+		okc := make([]bool, len(cases))
+		var wg sync.WaitGroup
+		for ci := range cases {
+			wg.Add(1)
+			go func(ci int) {
+				defer wg.Done()
+				// race the solvers (and the axiom encoding) on this case; the first proof ends the race
+				ctx, cancel := context.WithCancel(context.Background())
+				defer cancel()
+				type try struct {
+					s solverSpec
+					f string
+				}
+				tries := []try{{solvers[0], files[ci]}, {solvers[1], files[ci]}}
+				if quant {
+					tries = append(tries, try{solvers[0], axFiles[ci]})
+				}
+				resc := make(chan string, len(tries))
+				for _, t := range tries {
+					go func(t try) {
+						r, _, _ := runSolverCtx(ctx, t.s, t.f, e.timeout)
+						resc <- r
+					}(t)
+				}
+				for range tries {
+					if <-resc == "unsat" {
+						okc[ci] = true
+						cancel()
+						break
+					}
+				}
+			}(ci)
+		}
+		wg.Wait()
+		for ci := range cases {
+			if !okc[ci] {
 				return false
 			}
-			e.rm(fq)
+		}
+		for ci := range cases {
+			e.rm(files[ci])
+			if axFiles[ci] != "" {
+				e.rm(axFiles[ci])
+			}
 		}
 		ob.Status, ob.Solver, ob.Time = "proved", "z3-new/cvc5 (case split on block entry edges)", time.Since(t0).Seconds()
 		ob.Strategy = "split"
